@@ -95,7 +95,7 @@ def gen_history(r, ctx):
         own = keys_of(ctx, t, ns)
         sets.append(dl.mk_dset(ctx, name, uid, t, rev, hash=name if r.random() < 0.9 else None, gen=g, conds=conds, life=life,
                                prev=[s["name"] for s in sets if s["sel"]], pbp=(life == 1 and r.random() < 0.4),
-                               ctrlof=r.choice([[], own, own[:1]]), fin=r.random() < 0.8))
+                               ctrlof=[] if life == 2 else r.choice([[], own, own[:1]]), fin=r.random() < 0.8))
         uid += 1
     # forced clash on the name the next create will use
     tnext = r.choice([t0, t0, r.choice([1, 2, 3])])
@@ -236,7 +236,7 @@ def kernel(seed, tier):
     if tier == "quick":
         return kernel_cases(3, [(1, 2, 3)]) + kernel_cases(2, [(1, 5), (2, 6), (5, 1)]) + \
             [p for i, p in enumerate(kernel_cases(3, [(1, 5, 6)])) if len(p[1]["sets"]) == 3 and i % 4 == 0]
-    return kernel_cases(3, [(1, 2, 3), (2, 1, 2), (3, 2, 1), (1, 5, 6), (2, 6, 5)], "all") + kernel4()
+    return kernel_cases(3, [(1, 2, 3), (1, 5, 6)], "all") + kernel_cases(3, [(2, 1, 2), (3, 2, 1), (2, 6, 5)]) + kernel4()
 
 
 def kernel4():
